@@ -315,9 +315,19 @@ Definition cand_keys (p : pat) (d : bytes) (s : nat) : list (option N) :=
   | _ => [None]
   end.
 
-(* the genuine lengths at s (for some key) *)
+(* the genuine lengths at s (for some key).  For hex patterns and regexps the
+   candidate ends are already exactly the matches; only `fullword` filters. *)
 Definition lens_at (p : pat) (d : bytes) (s : nat) : list nat :=
-  filter (fun l => existsb (fun key => genuine_b p d s l key) (cand_keys p d s)) (cand_lens p d s).
+  match p with
+  | PText _ _ =>
+      filter (fun l => existsb (fun key => genuine_b p d s l key) (cand_keys p d s)) (cand_lens p d s)
+  | PHex r => map (fun j => j - s)%nat (ends false d r s)
+  | PRegexp r m =>
+      dedup (flat_map (fun w => map (fun j => j - s)%nat
+                                    (filter (fun j => negb (rm_fullword m) || fullword_b w 0 d s j)
+                                            (ends (rm_nocase m) d (vre w r) s)))
+                      (variants (rm_ascii m) (rm_wide m)))
+  end.
 
 (* every start with its genuine lengths, ascending starts *)
 Definition ref_scan (p : pat) (d : bytes) : list (nat * list nat) :=
